@@ -69,6 +69,15 @@ def cases(tier, seed):
                 continue
             for cutoff in (0.2, 0.5):
                 out.append({"family": "dtype", "dtype": dt, "entry": entry, "cutoff": cutoff, "shape": [5, 6, 4]})
+    # sizes beyond the operator-extraction alphabet: sides with large prime factors (13, 17, 19, 23, 31, 37: where an FFT
+    # would be padded to a fast length), and boxes of realistic size.  Probed with four impulses and a noise image.
+    for shape in ((13, 13, 13), (10, 17, 12), (26, 8, 9), (31, 6, 5), (4, 4, 37), (23, 19, 11), (48, 48, 48), (49, 49, 49), (40, 56, 48)):
+        for cutoff in (0.2, 0.5):
+            for order in (2, 1):
+                for entry in ENTRIES:
+                    if entry == "model.pre_transform" and order != 2:
+                        continue
+                    out.append({"family": "large", "shape": list(shape), "cutoff": cutoff, "order": order, "entry": entry})
     # call histories: the filter weights are memoised per (shape, cutoff, order); a low-pass must not depend on which
     # filters (low- or high-pass, other cutoffs, other shapes, numpy- or backend-level) were applied before it
     for shape in ((5, 6, 4), (7, 7, 7)) + (((8, 6, 9),) if tier == "thorough" else ()):
@@ -153,12 +162,49 @@ def _history(case):
         if s not in seen:
             seen.add(s)
             viol.append((s, f"shape {shape}: {hist} raised {err}"))
-    if res["raises_alone"]:
-        raise RuntimeError(f"harness: operations {res['raises_alone']} raise on a fresh state")
+    for n_ in res["raises_alone"]:
+        viol.append((f"{ID}|history|{n_.split('(')[0]}|raises-in-a-fresh-process", f"shape {shape}: {n_} raised {res['raises_alone_msg'][n_]}"))
     if res["nondeterministic"]:
         viol.append((f"{ID}|history|not-reproducible", f"operations {res['nondeterministic']} differ between two fresh runs"))
     return {"nontrivial": True, "outcome": f"history|{'viol' if viol else 'ok'}", "viol": viol,
             "metrics": {"history_sequences": res["sequences"], "history_calls": res["calls"]}}
+
+
+def _large(case):
+    shape = tuple(case["shape"])
+    cutoff, order, entry = case["cutoff"], case["order"], case["entry"]
+    g = ref_gain(shape, cutoff, order)
+    viol = []
+    if entry == "model.pre_transform":
+        from acryo.alignment import ZNCCAlignment
+        from acryo.backend import Backend
+
+        model = ZNCCAlignment(np.ones(shape, dtype=np.float32), cutoff=cutoff)
+        be = Backend()
+        fn = lambda im: (model.pre_transform(im, be), True)  # noqa
+    else:
+        fn = lambda im: _apply(entry, im, cutoff, order)  # noqa
+    rng = np.random.default_rng(77)
+    probes = []
+    for site in ((0, 0, 0), tuple(n - 1 for n in shape), tuple(n // 2 for n in shape), (shape[0] // 3, shape[1] - 2, 1)):
+        e = np.zeros(shape, dtype=np.float32)
+        e[site] = 1.0
+        probes.append((f"impulse at {site}", e))
+    probes.append(("noise image with mean 3", (rng.standard_normal(shape) + 3.0).astype(np.float32)))
+    for pname, im in probes:
+        out, is_ft = fn(im)
+        out = np.asarray(out)
+        ref_ft = g * np.fft.fftn(im.astype(np.float64))
+        ref = ref_ft if is_ft else np.fft.ifftn(ref_ft).real
+        scale_ = float(np.abs(ref).max())
+        if out.shape != ref.shape or (not is_ft and np.iscomplexobj(out)):
+            viol.append((f"{ID}|{entry}|large|shape-or-dtype", f"shape {shape}: result {out.shape} {out.dtype}"))
+            break
+        err = float(np.abs(out - ref).max())
+        if err > 3e-5 * max(1.0, scale_):
+            viol.append((f"{ID}|{entry}|large|operator", f"shape {shape}, cutoff {cutoff}, order {order}, {pname}: result differs from F^-1 diag(gain) F by {err:.3g} (values up to {scale_:.3g})" + ("" if is_ft else f"; mean {float(out.mean()):.5g} vs {float(im.mean()):.5g}")))
+            break
+    return {"nontrivial": True, "outcome": f"large|{'viol' if viol else 'ok'}", "viol": viol}
 
 
 def _dtype(case):
@@ -185,6 +231,8 @@ def run_case(case):
         return _history(case)
     if case.get("family") == "dtype":
         return _dtype(case)
+    if case.get("family") == "large":
+        return _large(case)
     shape = tuple(case["shape"])
     cutoff, order, entry = case["cutoff"], case["order"], case["entry"]
     n = int(np.prod(shape))
